@@ -459,7 +459,7 @@ func (g *G) Select(small, tail bool) ([]Tok, *ast.SelectStatement) {
 		switch {
 		case lim >= 8:
 			g.use("limit")
-			n := rapid.SampledFrom([]int{0, 1, 10, 100, 2147483647}).Draw(g.T, "limit")
+			n := rapid.SampledFrom([]int{0, 1, 10, 100, 2147483647, 123456789012}).Draw(g.T, "limit")
 			t = cat(t, g.kw("LIMIT"), sym(strconv.Itoa(n)))
 			s.Limit = &n
 			if g.chance(50, "offset") {
